@@ -7,6 +7,8 @@ import (
 	"go/types"
 	"strings"
 
+	"golang.org/x/tools/go/packages"
+
 	"d2verif/internal/core"
 )
 
@@ -17,7 +19,7 @@ func init() {
 		Patterns: []string{"./d2oracle", "./d2graph"},
 		Explanation: "Decides two structural necessary conditions of the agreement, not the agreement itself: " +
 			"(1) predictions are pure — the prediction functions of d2oracle (ReparentIDDelta, ReconnectEdgeIDDeltas, MoveIDDeltas, DeleteIDDeltas, RenameIDDeltas) compute the new IDs by temporarily rewriting IDs, parents and indices of the live graph; every such write to a field of a d2graph.Object or d2graph.Edge that the function did not create itself is undone: either a later statement of the same block writes the same place back (the opposite ++/-- for counters) with no return in between, or the write sits in a closure that returns its own undo closure, the undo closure writes the same places, and every call of the closure is followed on every path by a call (or a defer) of the undo. A prediction that leaves the graph changed makes the edit that follows run on another diagram than the one predicted for; " +
-			"(2) one name generator — each edit that invents a name on a conflict (Rename, move, Delete through renameConflictsToParent) and its prediction both reach generateUniqueKey, the only function of d2oracle that generates names; (3) renumbering agreement — the condition under which Delete lowers the index of a parallel connection's references and the condition under which DeleteIDDeltas predicts a lowered index are both `other.Index > deleted.Index`; (4) a prediction that resolved the addressed board reads only the board's Root/Edges/Objects afterwards, and every test in d2oracle that takes two connections for parallel (compares Src and Dst of two edges) also compares both arrow ends, as the compiler's numbering does.",
+			"(2) one name generator — each edit that invents a name on a conflict (Rename, move, Delete through renameConflictsToParent) and its prediction both reach generateUniqueKey, the only function of d2oracle that generates names; (3) renumbering agreement — the condition under which Delete lowers the index of a parallel connection's references and the condition under which DeleteIDDeltas predicts a lowered index are both `other.Index > deleted.Index`; (4) a prediction that resolved the addressed board reads only the board's Root/Edges/Objects afterwards, and every test in d2oracle that takes two connections for parallel (compares Src and Dst of two edges) also compares both arrow ends, as the compiler's numbering does; (5) twin assignments — two ifs of one function with the same condition that assign the same variable (a computation written once per element) have the same right-hand side up to a one-to-one renaming; (6) an early return decided by nil tests of pointer parameters is not followed by code that sets those parameters to nil (the test comes after the normalisation it depends on).",
 		NotCovered: "that the predicted map equals the ID changes of the edit for a given diagram (a comparison of two executions); which elements are reported; board-scoped edits",
 		Technique:  "static analysis: paired-update (typestate) on the typed AST and go/cfg, call-graph reachability",
 		Run:        runC40,
@@ -545,6 +547,95 @@ func runC40(c *core.Check) {
 	}
 	if npar == 0 {
 		c.Fail("C40.parallel-test", "parallel:inventory", token.NoPos, "no parallel-connection test found in d2oracle")
+	}
+
+	// (5) twin assignments
+	c.Rule("C40.twin-assign", "computations repeated under the same condition for two elements stay the same computation")
+	{
+		issues, n := twinAssignIssues(c.P, []*packages.Package{pk})
+		for _, is := range issues {
+			c.Fail("C40.twin-assign", is.Key, is.Pos, "the same condition guards two assignments to the same variable, written once per element, and the two right-hand sides are no longer the same computation: "+is.Text)
+		}
+		c.PassTrivial("C40.twin-assign", "twin-assign:inventory", token.NoPos, fmt.Sprintf("%d pairs of twin assignments in d2oracle", n))
+	}
+
+	// (6) an early return decided on parameters comes after the last reassignment of those parameters
+	c.Rule("C40.test-after-normalise", "an early return decided by nil tests of parameters is not followed by code that sets those parameters to nil")
+	{
+		ntest := 0
+		for _, fi := range c.P.Funcs(pk) {
+			if fi.Decl.Body == nil || fi.Decl.Recv != nil {
+				continue
+			}
+			params := map[types.Object]bool{}
+			sig := fi.Obj.Type().(*types.Signature)
+			for i := 0; i < sig.Params().Len(); i++ {
+				if _, isPtr := sig.Params().At(i).Type().(*types.Pointer); isPtr {
+					params[sig.Params().At(i)] = true
+				}
+			}
+			if len(params) == 0 {
+				continue
+			}
+			var fl *core.Flow
+			for _, st := range fi.Decl.Body.List {
+				ifs, ok := st.(*ast.IfStmt)
+				if !ok || ifs.Else != nil || len(ifs.Body.List) == 0 {
+					continue
+				}
+				if _, isRet := ifs.Body.List[len(ifs.Body.List)-1].(*ast.ReturnStmt); !isRet {
+					continue
+				}
+				// the condition is a conjunction of `param == nil`
+				tested := map[types.Object]bool{}
+				pure := true
+				var walk func(e ast.Expr)
+				walk = func(e ast.Expr) {
+					e = ast.Unparen(e)
+					be, ok := e.(*ast.BinaryExpr)
+					if !ok {
+						pure = false
+						return
+					}
+					if be.Op == token.LAND {
+						walk(be.X)
+						walk(be.Y)
+						return
+					}
+					if be.Op == token.EQL && core.IsNil(info, be.Y) && params[core.ObjOf(info, be.X)] {
+						tested[core.ObjOf(info, be.X)] = true
+						return
+					}
+					pure = false
+				}
+				walk(ifs.Cond)
+				if !pure || len(tested) == 0 {
+					continue
+				}
+				ntest++
+				if fl == nil {
+					fl = core.NewFlow(fi.Pkg, fi.Decl.Body)
+				}
+				bad := ""
+				ast.Inspect(fi.Decl.Body, func(n ast.Node) bool {
+					as, ok := n.(*ast.AssignStmt)
+					if !ok || as.Tok != token.ASSIGN || as.Pos() < ifs.End() {
+						return true
+					}
+					for i, l := range as.Lhs {
+						if tested[core.ObjOf(info, l)] && i < len(as.Rhs) && core.IsNil(info, as.Rhs[i]) && bad == "" {
+							bad = fmt.Sprintf("%s = nil at line %d", exprStr(l), c.P.Fset.Position(as.Pos()).Line)
+						}
+					}
+					return true
+				})
+				c.Decide(bad == "", "C40.test-after-normalise", fmt.Sprintf("early-return:%s:%s", fname(fi), exprStr(ifs.Cond)), ifs.Pos(), "no tested parameter is set to nil afterwards",
+					fmt.Sprintf("%s returns early when %s, but a later statement still clears one of these parameters (%s): the case the early return was written for arises after the test and is handled as a real change", fname(fi), exprStr(ifs.Cond), bad))
+			}
+		}
+		if ntest == 0 {
+			c.Fail("C40.test-after-normalise", "early-return:inventory", token.NoPos, "no early return on nil parameters found in d2oracle")
+		}
 	}
 
 	// (2) one generator
